@@ -111,8 +111,14 @@ public:
 								  HFSM2_IF_UTILITY_THEORY(, RNG& rng)
 								  HFSM2_IF_LOG_INTERFACE(, Logger* const logger = nullptr))		noexcept;
 
+#if HFSM2_STRUCTURE_REPORT_AVAILABLE()
+	// the structure report points into the instance's own prefix storage: a copy must point into its own
+	HFSM2_CONSTEXPR(14) R_(const R_&  other)													noexcept;
+	HFSM2_CONSTEXPR(14) R_(		 R_&& other)													noexcept;
+#else
 	HFSM2_CONSTEXPR(NO) R_(const R_& )															noexcept = default;
 	HFSM2_CONSTEXPR(NO) R_(		 R_&&)															noexcept = default;
+#endif
 
 	HFSM2_CONSTEXPR(20)	~R_()																	noexcept;
 
@@ -667,6 +673,7 @@ protected:
 #if HFSM2_STRUCTURE_REPORT_AVAILABLE()
 	HFSM2_CONSTEXPR(14)	void getStateNames()													noexcept;
 	HFSM2_CONSTEXPR(14)	void udpateActivity()													noexcept;
+	HFSM2_CONSTEXPR(14)	void relinkStructure(const R_& other)									noexcept;
 
 	Prefixes _prefixes;
 
